@@ -8,7 +8,7 @@ import Iso8583.Lemmas.Bytes
 
 namespace Iso8583
 
-theorem decDigits_spec : ∀ (fuel n : Nat), n < fuel →
+theorem decDigits_spec' : ∀ (fuel n : Nat), n < fuel →
     ofDigits 10 (decDigits fuel n) = n ∧ (∀ d ∈ decDigits fuel n, d ≤ 9) ∧ decDigits fuel n ≠ []
   | 0, n, h => by omega
   | f + 1, n, h => by
@@ -18,7 +18,7 @@ theorem decDigits_spec : ∀ (fuel n : Nat), n < fuel →
       refine ⟨by simp [ofDigits], ?_, by simp⟩
       intro d hd; simp at hd; omega
     · simp only [h10, if_false]
-      have ih := decDigits_spec f (n / 10) (by omega)
+      have ih := decDigits_spec' f (n / 10) (by omega)
       refine ⟨?_, ?_, by simp⟩
       · rw [ofDigits_append_singleton, ih.1]; omega
       · intro d hd
@@ -29,7 +29,7 @@ theorem decDigits_spec : ∀ (fuel n : Nat), n < fuel →
 
 theorem natToDec_ne_nil (n : Nat) : natToDec n ≠ [] := by
   unfold natToDec
-  have := (decDigits_spec (n + 1) n (by omega)).2.2
+  have := (decDigits_spec' (n + 1) n (by omega)).2.2
   simpa using this
 
 theorem mapM_decVal_natToDec (n : Nat) :
@@ -37,14 +37,14 @@ theorem mapM_decVal_natToDec (n : Nat) :
   unfold natToDec
   apply mapM?_map_of
   intro y hy
-  exact decVal_asciiDigit ((decDigits_spec (n + 1) n (by omega)).2.1 y hy)
+  exact decVal_asciiDigit ((decDigits_spec' (n + 1) n (by omega)).2.1 y hy)
 
 theorem natToDec_all_digits (n : Nat) : ∀ c ∈ natToDec n, isDigit c := by
   intro c hc
   unfold natToDec at hc
   simp only [List.mem_map] at hc
   obtain ⟨d, hd, rfl⟩ := hc
-  exact asciiDigit_isDigit ((decDigits_spec (n + 1) n (by omega)).2.1 d hd)
+  exact asciiDigit_isDigit ((decDigits_spec' (n + 1) n (by omega)).2.1 d hd)
 
 /-- the first character of a decimal numeral is a digit (so neither `+` nor `-`) -/
 theorem natToDec_head (n : Nat) : ∃ c rest, natToDec n = c :: rest ∧ isDigit c := by
@@ -55,7 +55,7 @@ theorem natToDec_head (n : Nat) : ∃ c rest, natToDec n = c :: rest ∧ isDigit
 theorem parseInt64_natToDec (n : Nat) (h : n < 2 ^ 63) : parseInt64? (natToDec n) = some (n : Int) := by
   obtain ⟨c, rest, hc, hd⟩ := natToDec_head n
   have hm := mapM_decVal_natToDec n
-  have hv := (decDigits_spec (n + 1) n (by omega)).1
+  have hv := (decDigits_spec' (n + 1) n (by omega)).1
   have h45 : c ≠ 45 := by intro h; subst h; revert hd; decide
   have h43 : c ≠ 43 := by intro h; subst h; revert hd; decide
   unfold parseInt64?
@@ -66,7 +66,7 @@ theorem parseInt64_natToDec (n : Nat) (h : n < 2 ^ 63) : parseInt64? (natToDec n
 theorem parseInt64_neg_natToDec (n : Nat) (h : n ≤ 2 ^ 63) :
     parseInt64? (45 :: natToDec n) = some (-(n : Int)) := by
   have hm := mapM_decVal_natToDec n
-  have hv := (decDigits_spec (n + 1) n (by omega)).1
+  have hv := (decDigits_spec' (n + 1) n (by omega)).1
   obtain ⟨c, rest, hc, _⟩ := natToDec_head n
   unfold parseInt64?
   rw [hc] at hm ⊢
@@ -91,7 +91,7 @@ theorem parseInt64_formatInt_range (i : Int) (hlo : -(2 ^ 63 : Int) ≤ i) (hhi 
 theorem atoi_natToDec (n : Nat) : atoi? (natToDec n) = some (n : Int) := by
   obtain ⟨c, rest, hc, hd⟩ := natToDec_head n
   have hm := mapM_decVal_natToDec n
-  have hv := (decDigits_spec (n + 1) n (by omega)).1
+  have hv := (decDigits_spec' (n + 1) n (by omega)).1
   have h45 : c ≠ 45 := by intro h; subst h; revert hd; decide
   have h43 : c ≠ 43 := by intro h; subst h; revert hd; decide
   unfold atoi?
